@@ -170,6 +170,7 @@ ENGINE_KEYS = ['roaring.zzSelfFrame', 'roaring.zzSelfFresh', 'roaring.zzSelfByte
 ENGINE_OK = ['roaring.zzP.bump', 'roaring.zzB.bumpAll', 'roaring.zzMk', 'roaring.zzMask']
 
 FIX_COMMITS = [
+ ('d2f9f61', 'roaring.runContainer16.not', 'not/'),
  ('7b1b21d', 'roaring.bitmapContainer.addOffset', 'addOffset/'),
  ('1b5427e', 'roaring.runContainer16.iremoveRange', 'iremoveRange'),
  ('c1b2631', 'roaring.runContainer16.or', 'or'),
